@@ -178,26 +178,36 @@ func checkC16(c *Ctx) {
 			call := ci.(*ssa.Call)
 			a := argsOf(&call.Call)
 			okk := pathOf(a[0]) == id
-			if calleeShort(&call.Call) == "registerCert" {
-				okk = okk && pathOf(a[1]) == "dtls.certsFromSeed(config.PSK)#0" && pathOf(a[2]) == "dtls.certsFromSeed(config.PSK)#1"
-			}
 			r.Check(okk, "C16.3", "acceptDTLSConn: "+calleeShort(&call.Call)+" keyed by the hello-random of config.PSK", call.Pos(), fnName(f), firstN(pathOf(call), 120),
 				"the listener registers under an id (or with certificates) not derived from this accept's secret as clientHelloRandomFromSeed(PSK) / certsFromSeed(PSK)#0,#1: the accepted connection is routed to, or verified for, another caller")
 		}
-	}
-	if f := c.fn("C16.3", dt, "Listener", "registerCert"); f != nil {
-		okk := 0
-		for _, st := range fieldStores(f, "dtls.certPair", "clientCert") {
-			if pathOf(st.Val) == "clientCert" {
-				okk++
+		// the certificate pair registered for this accept: whichever of the two functions fills it (the pair may be
+		// built by registerCert from two parameters, or by the accept itself and handed over whole), its clientCert
+		// is the first and its serverCert the second result of certsFromSeed(config.PSK)
+		reg := c.P.Func(repoMod+"/"+dt, "Listener", "registerCert")
+		var regCall *ssa.CallCommon
+		for _, ci := range callsIn(f, shortIs("registerCert")) {
+			regCall = ci.Common()
+		}
+		okk, nSt := 0, 0
+		for _, g := range []*ssa.Function{f, reg} {
+			if g == nil || g.Blocks == nil {
+				continue
+			}
+			for i, fld := range []string{"clientCert", "serverCert"} {
+				for _, st := range fieldStores(g, "dtls.certPair", fld) {
+					nSt++
+					vp := pathOf(st.Val)
+					if g == reg {
+						vp = substParams(vp, reg, regCall)
+					}
+					if vp == fmt.Sprintf("dtls.certsFromSeed(config.PSK)#%d", i) {
+						okk++
+					}
+				}
 			}
 		}
-		for _, st := range fieldStores(f, "dtls.certPair", "serverCert") {
-			if pathOf(st.Val) == "serverCert" {
-				okk++
-			}
-		}
-		r.Check(okk == 2, "C16.3", "registerCert: certPair{clientCert, serverCert} stored in their own fields", f.Pos(), fnName(f), "2 field stores", "the two certificates are stored in swapped/other fields: the listener presents the client certificate or verifies against the server one")
+		r.Check(okk == 2 && nSt == 2, "C16.3", "registerCert: certPair{clientCert, serverCert} stored in their own fields", f.Pos(), fnName(f), "2 field stores: clientCert <- certsFromSeed(PSK)#0, serverCert <- #1", "the two certificates are stored in swapped/other fields (or come from another secret): the listener presents the client certificate or verifies against the server one")
 	}
 	if f := c.fn("C16.3", dt, "Listener", "acceptLoop"); f != nil {
 		found := false
